@@ -177,6 +177,15 @@ Lemma fixed_crash_safe mid : atomic_fs mid ->
   forall d, crash_state mid (ops_fixed path tmp new) d0 d -> d path = Some old \/ d path = Some new.
 Proof. intros Hm path tmp old new d0 Htp H0 d C. exact (crash_safe path tmp old new d0 Htp H0 mid Hm d C). Qed.
 
+Lemma fixed_frame mid : atomic_fs mid ->
+  forall path tmp old new d0, tmp <> path -> d0 path = Some old ->
+  forall d, crash_state mid (ops_fixed path tmp new) d0 d ->
+  forall n, n <> path -> n <> tmp -> d n = d0 n.
+Proof.
+  intros Hm path tmp old new d0 Htp H0 d C n Hp Ht.
+  destruct (crash_inv path tmp old new d0 Htp H0 mid Hm d C) as [[_ O] | [[_ O] _]]; auto.
+Qed.
+
 Lemma fixed_statement path tmp old new : tmp <> path -> C36_statement path old new (ops_fixed path tmp new).
 Proof.
   intros Htp k d0 H0. cbv zeta.
